@@ -182,9 +182,11 @@ def syncing_model(ctx, problems):
 
 def edit_constant_model(ctx, problems):
     n = 0
-    for had_copy, makes_copy, fails in itertools.product([False, True], [False, "instance", "class"], [False, True]):
+    for initialised, had_copy, makes_copy, fails in itertools.product([True, False], [False, True], [False, "instance", "class"], [False, True]):
         if had_copy and makes_copy == "instance":
             continue
+        if not initialised and (had_copy or makes_copy == "instance"):
+            continue            # an object still under construction has no per-instance Parameters and makes none
         pc, pn = Obj("class_level_Parameter_c", constant=True, name="c"), Obj("class_level_Parameter_n", constant=False, name="n")
         kls = {"c": pc, "n": pn}
         inst = {}
@@ -193,7 +195,24 @@ def edit_constant_model(ctx, problems):
             inst["c"] = earlier
         born = Obj("instance_copy_of_c_made_in_the_block", constant=None, name="c")
         cls_param = Obj("class_namespace", __getitem__=kls)
-        inst_param = Obj("instance_namespace", __getitem__=inst)
+
+        class _InstanceLookup(dict):
+            """obj.param[name] on an initialised instance: its own copy of the Parameter, made on first access (a copy of
+            the class-level Parameter as it is at that moment)."""
+
+            def __contains__(self, key):
+                return key in kls or key in inst
+
+            def __getitem__(self, key):
+                if key not in inst and not initialised:
+                    return kls[key]
+                if key not in inst:
+                    src = kls[key]
+                    inst[key] = Obj("instance_copy_of_%s_made_by_the_lookup" % key, constant=src.attrs["constant"], name=key)
+                    lookup_made.append(inst[key])
+                return inst[key]
+        lookup_made = []
+        inst_param = Obj("instance_namespace", __getitem__=_InstanceLookup())
         cls = Obj("Cls", param=cls_param)
         obj = Obj("instance", param=inst_param, _param__private=Obj("private", params=inst))
         seen = {}
@@ -206,8 +225,9 @@ def edit_constant_model(ctx, problems):
             return NotImplemented
 
         def body(val, fails=fails):
-            seen["during"] = (pc.attrs["constant"], earlier.attrs["constant"] if had_copy else None)
-            if makes_copy == "instance":
+            own = inst.get("c")
+            seen["during"] = (pc.attrs["constant"], own.attrs["constant"] if own is not None else None)
+            if makes_copy == "instance" and "c" not in inst:       # a copy is instantiated only where there is none yet
                 born.attrs["constant"] = pc.attrs["constant"]      # a copy of the Parameter as it is right now
                 inst["c"] = born
             elif makes_copy == "class":
@@ -219,13 +239,21 @@ def edit_constant_model(ctx, problems):
                 raise _Raise("RuntimeError")
         o, _ = _run(ctx, P + "edit_constant", {"parameterized": obj}, body, hook)
         n += 1
-        desc = "edit_constant(%s), the body %s%s" % ("an instance that already has its own copy of the constant Parameter" if had_copy else "an instance without per-instance Parameters",
+        desc = "edit_constant(%s), the body %s%s" % ("an instance that already has its own copy of the constant Parameter" if had_copy else "an instance without per-instance Parameters" if initialised
+                                                     else "an object still under construction (no per-instance Parameters yet)",
                                                      "instantiates the per-instance copy of the constant Parameter and " if makes_copy == "instance" else "makes a class-level set that copies the constant Parameter for the class and " if makes_copy == "class" else "", "raises" if fails else "ends normally")
         # the Parameter that governs assignments to the instance: its own copy if it has one, else the class-level one
-        governing_unlocked = seen["during"][1] is False if had_copy else seen.get("during", (None,))[0] is False
+        has_own = seen.get("during", (None, None))[1] is not None
+        governing_unlocked = seen["during"][1] is False if has_own else seen.get("during", (None,))[0] is False
         if not governing_unlocked:
-            problems["C14"].append("%s: inside the block the Parameter that governs assignments to the instance (%s) is still constant" % (desc, "its own copy" if had_copy else "the class-level one"))
-        locked = [("the class-level Parameter", pc)] + ([("the earlier instance copy", earlier)] if had_copy else []) + ([("the copy made inside the block", born)] if makes_copy else [])
+            problems["C14"].append("%s: inside the block the Parameter that governs assignments to the instance (%s) is still constant" % (desc, "its own copy" if has_own else "the class-level one"))
+        # the class-level Parameter is shared with every other instance that has no copy of its own: while it is unlocked
+        # a sibling accepts plain assignments, and a copy a sibling instantiates meanwhile is born unlocked and never re-locked
+        if initialised and seen.get("during", (None,))[0] is not True:
+            problems["C14"].append("%s: inside the block the CLASS-level Parameter is unlocked (constant=%s): a sibling instance accepts plain assignments to its constant, and the per-instance copy "
+                                   "it instantiates meanwhile is born unlocked and stays so after the block" % (desc, seen.get("during", (None,))[0]))
+        locked = [("the class-level Parameter", pc)] + ([("the earlier instance copy", earlier)] if had_copy else []) + ([("the copy made inside the block", born)] if makes_copy and born.attrs["constant"] is not None else []) + [
+            ("the instance's own copy made on entry", x) for x in lookup_made]
         for label, pobj in locked:
             if pobj.attrs["constant"] is not True:
                 msg = "%s: %s is left with constant=%s: the constant accepts plain assignments from then on" % (desc, label, pobj.attrs["constant"])
